@@ -335,14 +335,16 @@ Print Assumptions C10_summary_ranges_cut.
    B1 and B2 before its window, every other sale at a loss has B2 before its
    window ([wcond]), and no row carries a zero superficial-loss cell, the
    re-run reports EXACTLY the same rows - generated adjustments included. *)
-Theorem C10_later_loss_rows_reproduced : forall B1 B2 T D1 D2 st1 st2 dsT,
-  Forall2 row_sim D2 D1 -> srel st1 st2 -> Forall spec_nz T ->
+Theorem C10_later_loss_rows_reproduced : forall B1 B2 regof T D1 D2 st1 st2 dsT,
+  Forall2 row_sim D2 D1 -> srel regof st1 st2 -> Forall spec_nz T ->
   run_loop exact (D1 ++ B1) st1 T = (dsT, None) -> Forall (wcond B1 B2) dsT ->
+  Forall (gooddelta regof) dsT ->
   run_loop exact (D2 ++ B2) st2 T = (dsT, None).
 Proof. exact later_sim. Qed.
-Check C10_later_loss_rows_reproduced : forall B1 B2 T D1 D2 st1 st2 dsT,
-  Forall2 row_sim D2 D1 -> srel st1 st2 -> Forall spec_nz T ->
+Check C10_later_loss_rows_reproduced : forall B1 B2 regof T D1 D2 st1 st2 dsT,
+  Forall2 row_sim D2 D1 -> srel regof st1 st2 -> Forall spec_nz T ->
   run_loop exact (D1 ++ B1) st1 T = (dsT, None) -> Forall (wcond B1 B2) dsT ->
+  Forall (gooddelta regof) dsT ->
   run_loop exact (D2 ++ B2) st2 T = (dsT, None).
 Print Assumptions C10_later_loss_rows_reproduced.
 
@@ -353,8 +355,8 @@ Print Assumptions C10_later_loss_rows_reproduced.
    0.001 check passes, the same amount is denied, the same balances, cost base
    and capital gain are reported, and no adjustment rows are generated. *)
 Theorem C10_kept_sale_reproduced :
-  forall bef2 bef1 t1 aft2 aft1 st2 st1 d inj info sh aps com rate crate spec1,
-  srel st1 st2 ->
+  forall regof bef2 bef1 t1 aft2 aft1 st2 st1 d inj info sh aps com rate crate spec1,
+  srel regof st1 st2 -> goodaf regof (t_af t1) ->
   t_act t1 = Sell sh aps com rate crate spec1 -> (0 < sh)%Qc ->
   delta_for_tx exact bef1 t1 aft1 st1 = Ok (d, inj) -> d_sfl d = Some info ->
   FwdEq (t_sd t1) aft2 aft1 -> BwdEq (t_sd t1) bef2 bef1 ->
@@ -365,8 +367,8 @@ Theorem C10_kept_sale_reproduced :
     /\ sf_amount info' = sf_amount info.
 Proof. exact delta_for_tx_kept. Qed.
 Check C10_kept_sale_reproduced :
-  forall bef2 bef1 t1 aft2 aft1 st2 st1 d inj info sh aps com rate crate spec1,
-  srel st1 st2 ->
+  forall regof bef2 bef1 t1 aft2 aft1 st2 st1 d inj info sh aps com rate crate spec1,
+  srel regof st1 st2 -> goodaf regof (t_af t1) ->
   t_act t1 = Sell sh aps com rate crate spec1 -> (0 < sh)%Qc ->
   delta_for_tx exact bef1 t1 aft1 st1 = Ok (d, inj) -> d_sfl d = Some info ->
   FwdEq (t_sd t1) aft2 aft1 -> BwdEq (t_sd t1) bef2 bef1 ->
@@ -391,7 +393,7 @@ Print Assumptions C10_kept_sale_reproduced.
    re-emitted rows report the same balances, cost bases and gains, and the
    later rows are reported EXACTLY as the full history reports them. *)
 Theorem C10_roundtrip_simple_partial :
-  forall like (hs : list hold_row) latest rg P K T dsP B1 st1 dsK bK stK dsT K',
+  forall regof like (hs : list hold_row) latest rg P K T dsP B1 st1 dsK bK stK dsT K',
   sd_sorted (P ++ K ++ T) ->
   run_part exact [] st0 P (K ++ T) = (dsP, B1, st1, None) ->
   run_part exact B1 st1 K T = (dsK, bK, stK, None) ->
@@ -401,7 +403,8 @@ Theorem C10_roundtrip_simple_partial :
   NoDup (map (fun h : hold_row => af_id (fst (fst h))) hs) ->
   Forall (fun h : hold_row => holding_ok (fst (fst h)) (snd (fst h))) hs ->
   ps_all st1 = total_held hs ->
-  (forall af, obs st1 af = held_obs hs af (0%Qc, if af_reg af then None else Some 0%Qc)) ->
+  (forall af, goodaf regof af -> obs st1 af = held_obs hs af (0%Qc, if af_reg af then None else Some 0%Qc)) ->
+  Forall (gooddelta regof) (dsK ++ dsT) ->
   Forall (fun h : hold_row => exists d, In d dsP /\ snd h = d_sd d) hs ->
   (forall h d, In h hs -> In d (dsK ++ dsT) -> plain_loss_sell d = true -> within_after (snd h) (d_sd d) = false) ->
   keep_all dsK = Ok K' ->
@@ -413,7 +416,7 @@ Theorem C10_roundtrip_simple_partial :
     /\ map d_post dsK' = map d_post dsK /\ map d_gain dsK' = map d_gain dsK.
 Proof. exact roundtrip_ranges. Qed.
 Check C10_roundtrip_simple_partial :
-  forall like (hs : list hold_row) latest rg P K T dsP B1 st1 dsK bK stK dsT K',
+  forall regof like (hs : list hold_row) latest rg P K T dsP B1 st1 dsK bK stK dsT K',
   sd_sorted (P ++ K ++ T) ->
   run_part exact [] st0 P (K ++ T) = (dsP, B1, st1, None) ->
   run_part exact B1 st1 K T = (dsK, bK, stK, None) ->
@@ -423,7 +426,8 @@ Check C10_roundtrip_simple_partial :
   NoDup (map (fun h : hold_row => af_id (fst (fst h))) hs) ->
   Forall (fun h : hold_row => holding_ok (fst (fst h)) (snd (fst h))) hs ->
   ps_all st1 = total_held hs ->
-  (forall af, obs st1 af = held_obs hs af (0%Qc, if af_reg af then None else Some 0%Qc)) ->
+  (forall af, goodaf regof af -> obs st1 af = held_obs hs af (0%Qc, if af_reg af then None else Some 0%Qc)) ->
+  Forall (gooddelta regof) (dsK ++ dsT) ->
   Forall (fun h : hold_row => exists d, In d dsP /\ snd h = d_sd d) hs ->
   (forall h d, In h hs -> In d (dsK ++ dsT) -> plain_loss_sell d = true -> within_after (snd h) (d_sd d) = false) ->
   keep_all dsK = Ok K' ->
@@ -462,7 +466,9 @@ Example C10_roundtrip_simple_partial_nonvacuous :
   /\ NoDup (map (fun h : hold_row => af_id (fst (fst h))) rt_hs)
   /\ Forall (fun h : hold_row => holding_ok (fst (fst h)) (snd (fst h))) rt_hs
   /\ ps_all rt_st1 = total_held rt_hs
-  /\ (forall af, obs rt_st1 af = held_obs rt_hs af (Q2Qc 0, if af_reg af then None else Some (Q2Qc 0)))
+  /\ (forall af, goodaf (fun _ => false) af ->
+                 obs rt_st1 af = held_obs rt_hs af (Q2Qc 0, if af_reg af then None else Some (Q2Qc 0)))
+  /\ Forall (gooddelta (fun _ => false)) (rt_dsK ++ rt_dsT)
   /\ Forall (fun h : hold_row => exists d, In d rt_dsP /\ snd h = d_sd d) rt_hs
   /\ (forall h d, In h rt_hs -> In d (rt_dsK ++ rt_dsT) -> plain_loss_sell d = true -> within_after (snd h) (d_sd d) = false)
   /\ keep_all rt_dsK = Ok rt_K'
@@ -486,8 +492,8 @@ Example C10_later_loss_rows_nonvacuous :
     /\ existsb is_sfl_delta rt_dsT = true /\ existsb plain_loss_sell rt_dsT = true
     /\ existsb is_sfl_delta rt_dsK = true.
 Proof.
-  destruct rt_hypotheses as (H1 & H2 & H3 & H4 & H5 & H6 & H7 & H8 & H9 & H10 & H11 & H12 & H13 & H14 & H15 & H16 & _).
-  destruct (C10_roundtrip_simple_partial rt_like rt_hs rt_date rt_rg rt_P rt_K rt_T rt_dsP rt_B1 rt_st1 rt_dsK rt_bK rt_stK
-              rt_dsT rt_K' H1 H2 H3 H4 H5 H6 H7 H8 H9 H10 H11 H12 H13 H14 H15 H16) as (dsG & dsK' & E & _).
+  destruct rt_hypotheses as (H1 & H2 & H3 & H4 & H5 & H6 & H7 & H8 & H9 & H10 & H11 & H11' & H12 & H13 & H14 & H15 & H16 & _).
+  destruct (C10_roundtrip_simple_partial (fun _ => false) rt_like rt_hs rt_date rt_rg rt_P rt_K rt_T rt_dsP rt_B1 rt_st1 rt_dsK rt_bK rt_stK
+              rt_dsT rt_K' H1 H2 H3 H4 H5 H6 H7 H8 H9 H10 H11 H11' H12 H13 H14 H15 H16) as (dsG & dsK' & E & _).
   exists dsG, dsK'. split; [exact E|]. vm_compute. repeat split.
 Qed.
